@@ -141,6 +141,9 @@ def render(spec, style, name):
             ev = f', event="{" ".join(es)}"'
         elif with_event == "list":
             ev = ", event=[" + ", ".join(f'"{e}"' for e in es) + "]"
+        elif with_event == "list_overlap":
+            # the same events, written with an overlap: ["e0", "e0 e1"] names e0 twice and must still bind e1
+            ev = ", event=[" + ", ".join([f'"{es[0]}"', '"' + " ".join(es) + '"']) + "]"
         elif with_event == "obj":
             ev = ", event=[" + ", ".join(es) + "]"
         if style == "from_":
@@ -149,8 +152,8 @@ def render(spec, style, name):
             return f"{P}{s}.to.itself({guard_kw(g).lstrip(', ')}{ev if not guard_kw(g) else ev})".replace("(, ", "(")
         return f"{P}{s}.to({P}{d}{guard_kw(g)}{ev})"
 
-    if style in ("event_str", "event_list"):
-        body += ["    " + tr(t, "str" if style == "event_str" else "list") for t in T]
+    if style in ("event_str", "event_list", "event_list_overlap"):
+        body += ["    " + tr(t, {"event_str": "str", "event_list": "list", "event_list_overlap": "list_overlap"}[style]) for t in T]
     elif style in ("states_first", "events_first"):
         if style == "states_first":
             body += [f'    {e} = Event(name="{e}")' for e in evs]
@@ -191,7 +194,7 @@ def render(spec, style, name):
     return "\n".join(L + cls) + "\n"
 
 
-STYLES = ["plain", "from_", "event_str", "event_list", "states_first", "events_first", "mixed", "mixed_inline", "decorator", "state_params", "itself",
+STYLES = ["plain", "from_", "event_str", "event_list", "event_list_overlap", "states_first", "events_first", "mixed", "mixed_inline", "decorator", "state_params", "itself",
           "enum", "intenum", "states_dict", "subclass", "any"]
 
 
